@@ -91,12 +91,13 @@ def run(prop, tier, replay=None):
     by_id = {s["id"]: s for s in scripts}
     violations += replay_fs
     tp = run_driver(scripts, "drv_" + prop)
-    acc, rej, stats, total = vlib.validate_traces(tr_module, cfg, tp, "val_" + prop, shards=12)
+    left = []
+    acc, rej, stats, total = vlib.validate_traces(tr_module, cfg, tp, "val_" + prop, shards=12, leftover=left)
     explained = []
     if tr_module == "WorkerTrace.tla":
         # rejected step by step: is it at least a behaviour of ActionWorker as far as can be seen from outside
         # (filter, handler and error-handler calls; the trace points inside the loop neither required nor believed)?
-        rej, explained = vlib.second_opinion("WorkerTraceObs.tla", cfg.replace("WorkerTrace_", "WorkerTraceObs_"), rej, "obs_" + prop)
+        rej, explained = vlib.second_opinion("WorkerTraceObs.tla", cfg.replace("WorkerTrace_", "WorkerTraceObs_"), rej, "obs_" + prop, leftover=left)
         acc += len(explained)
     for r in rej:
         sid = r["script"] or ""
